@@ -132,6 +132,9 @@ def run_core(pid, tier, seed, plan):
                 # (DESIGN.md 4.2 - strict only where the question has one answer).
                 if render == "hostile" and any(a["a"] == "Edit" and a["kind"] in ("ind", "mod") for a in b):
                     render = "plain"
+                # a conflict resolution rearranges lines inside one changed region: the same ambiguity
+                if render == "hostile" and any(a["a"] in ("CherryPickR", "CherryPickManyR", "RebaseR") for a in b):
+                    render = "plain"
                 twins = camp.get("twins") or [None]
                 tsel = twins if camp.get("all_twins") else [twins[(i + seed) % len(twins)]]
                 for ti, tw in enumerate(tsel):
